@@ -499,7 +499,12 @@ func (e *c02eval) eval(v ssa.Value) core.AV {
 		if a.Bool {
 			return unknown("conversion of a bool")
 		}
-		if _, ok := core.TypeRange(x.X.Type()); !ok {
+		from := x.X.Type()
+		if _, isTP := from.(*types.TypeParam); isTP {
+			// inside a generic helper: the operand's type is the type of the value the caller passed
+			from = e.deref(x.X).Type()
+		}
+		if _, ok := core.TypeRange(from); !ok {
 			return unknown("conversion from non-numeric")
 		}
 		if a.Why == "f32rep" && core.IsFloat32(x.Type()) {
@@ -507,7 +512,7 @@ func (e *c02eval) eval(v ssa.Value) core.AV {
 			a.Why = ""
 			return a
 		}
-		r, _ := core.ConvertAV(a, x.X.Type(), x.Type())
+		r, _ := core.ConvertAV(a, from, x.Type())
 		if !a.Src && r.Why == "" {
 			r.Src, r.Why = false, a.Why
 		}
@@ -658,7 +663,11 @@ func (e *c02eval) take(cond ssa.Value, taken bool) {
 		default:
 			return
 		}
-		if _, ok := core.TypeRange(c.X.Type()); !ok {
+		xt := c.X.Type()
+		if _, isTP := xt.(*types.TypeParam); isTP {
+			xt = e.deref(c.X).Type() // inside a generic helper: the type of the value the caller passed
+		}
+		if _, ok := core.TypeRange(xt); !ok {
 			return // comparisons of errors, bools, ...
 		}
 		ordered := op != token.NEQ
